@@ -55,7 +55,7 @@ chk('C11', 'model_checking',
     'Histories only: (getter map, E-M) no State getter accesses the derivative cache except through the keyed lookup get_or_compute_derivative_residual(key) with the key its definition requires (18 getters, z3 on the MIR); (cache level, in-crate) every history of <= 2 (thorough 3) calls of the five Cache::get_or_insert_with_* methods with symbolic method, symbolic derivative keys and arbitrary f64 values returns bitwise the value of the requested key, also across a clone; (getter level, thorough tier only) g evaluated after h on the same state equals the closed form for 16 (VERIF_C11_ALL_PAIRS=1: 56) ordered pairs of the 8 scalar residual getters. Thread schedules and par_pure are NOT covered (Kani does not model concurrency).',
     EK_NOTE + 'Bound: 2 components, history length 2/3.', 'Kani/CBMC bounded model checking with symbolic call histories; MIR -> SMT getter map (z3)', 'DESIGN.md 4/C11, 10.2', 'E-K + E-M')
 chk('C13', 'proof',
-    'Partial: for every non-electrolyte model, the dual part read by second_virial_coefficient at zero density equals, per contribution, the same dual part of the finite-density code path at rho = 0 (z3, all T > 0 on the path); constants folded at zero density must be finite. Contributions with removable x/rho terms or concretised traces are outside_reach. Third virial coefficient: thorough tier. Temperature derivatives: not claimed. A non-finite or deviating zero-density value found natively (Richardson limit of the finite-density path) is reported even where the prover cannot state the relation.',
+    'Partial: for every non-electrolyte model, the dual part read by second_virial_coefficient at zero density equals, per contribution, the same dual part of the finite-density code path at rho = 0 (z3, all T > 0 on the path); constants folded at zero density must be finite. Contributions with removable x/rho terms or concretised traces are outside_reach. Third virial coefficient and seeded parameter sets: thorough tier (everything the thorough tier adds to the quick catalogue is exploration: an undischarged relation there is recorded, not claimed). Temperature derivatives: not claimed. A non-finite or deviating zero-density value found natively (Richardson limit of the finite-density path) is reported even where the prover cannot state the relation.',
     ES_NOTE + 'StateHD::new_virial is mirrored (pub(crate)).', ES_TECH, 'DESIGN.md 4/C13', 'E-S')
 chk('C16', 'proof',
     'Volume clause only: for Cartesian, spherical and polar axes and every n in [2,16] (thorough [2,64]) z3 proves sum_k w_k = Axis::volume() for all real L > 0 (and all alpha > 0 for the polar log grid: its 20-step fixed-point loop is summarised by havoc), from the MIR of the three Axis constructors, their weight closures and Axis::volume. Weighted densities / Euler-Lagrange residual / grand potential of a uniform profile need FFT convolutions: not applicable.',
